@@ -226,6 +226,10 @@ class GraphicsTerminal:
         self.shellscript_out: Optional[TextIO] = shellscript_out
         self.reset_by_scrolling: bool = reset_by_scrolling
         self.tracked_cursor_position: Optional[Tuple[int, int]] = None
+        # Whether scroll margins may be set (by `set_margins` or by arbitrary output).
+        # Relative vertical movements stop at the margins, which we don't track, so
+        # the tracked cursor position is forgotten on such movements if this is True.
+        self.scroll_margins_may_be_set: bool = False
 
     @staticmethod
     def _open(filename: Union[str, BinaryIO, None], write: bool) -> BinaryIO:
@@ -271,6 +275,7 @@ class GraphicsTerminal:
             string = string.encode("utf-8")
         self._write(string, flush=flush)
         self.tracked_cursor_position = None
+        self.scroll_margins_may_be_set = True
 
     def writecmd(self, string: Union[str, bytes]):
         self.out_display.flush()
@@ -281,6 +286,7 @@ class GraphicsTerminal:
         self.out_command.flush()
         self._write_to_shellscript(string, comment="")
         self.tracked_cursor_position = None
+        self.scroll_margins_may_be_set = True
 
     def get_graphics_command_template(self) -> bytes:
         template = b"\033_G%b\033\\"
@@ -321,6 +327,9 @@ class GraphicsTerminal:
             placeholder.end_col = end_col
         if end_row is not None:
             placeholder.end_row = end_row
+        if formatting is not None:
+            # Custom formatting is arbitrary output.
+            self.scroll_margins_may_be_set = True
 
         placeholder.to_stream(
             self.out_display,
@@ -394,6 +403,10 @@ class GraphicsTerminal:
             self.set_tracked_cursor_position(0, cur_y + rows)
         else:
             self.set_tracked_cursor_position(cur_x + cols, cur_y + rows - 1)
+        if self.scroll_margins_may_be_set and not put_command.do_not_move_cursor:
+            # The placeholder might have scrolled the scroll region instead of moving
+            # the cursor down.
+            self.tracked_cursor_position = None
         self.out_display.flush()
 
     def send_command(
@@ -618,6 +631,7 @@ class GraphicsTerminal:
             self._write(b"\033[0m", comment="Reset brush")
             # Reset the scroll margins.
             self._write(b"\033[r", comment="Reset scroll margins")
+            self.scroll_margins_may_be_set = False
             # Scroll up to clear the screen.
             cols, lines = self.get_size()
             self.scroll_up(lines)
@@ -626,6 +640,7 @@ class GraphicsTerminal:
         self._write(b"\033c", comment="Reset terminal")
         self.out_display.flush()
         self.tracked_cursor_position = (0, 0)
+        self.scroll_margins_may_be_set = False
 
     def clear_line(self):
         self._write(b"\033[2K", comment="Clear line")
@@ -720,6 +735,9 @@ class GraphicsTerminal:
                     comment=f"Move cursor left by {-right}",
                 )
         self.out_display.flush()
+        if down and self.scroll_margins_may_be_set:
+            # CUU and CUD stop at the scroll margins, which we don't track.
+            self.tracked_cursor_position = None
         if self.tracked_cursor_position is not None:
             self.set_tracked_cursor_position(
                 self.tracked_cursor_position[0] + (right or 0),
@@ -761,6 +779,7 @@ class GraphicsTerminal:
         )
         self.out_display.flush()
         self.tracked_cursor_position = None
+        self.scroll_margins_may_be_set = True
 
     def scroll_down(self, lines: int = 1):
         self._write(b"\033[%dT" % lines, comment=f"Scroll down by {lines}")
